@@ -87,19 +87,50 @@ END { print "end" }`,
 BEGIN { print "begin" , walk ( [ 1 , [ 2 ] , 3 , 4 ] ) }
 $ ~ /1/ || ! ( $ < 2 ) { print "elem" , - $ , $ % 2 , $ is number }
 END { print "end" }`,
+
+	// every statement kind ended by `;` (argument-less print, return, next, exit, ++, calls), `;` before `}`
+	`function show ( a ) { «F
+  print ; print a ; return ;
+} F»
+function two ( ) { «F print "two" ; return 2 ; } F»
+BEGIN { print "begin" ; print ; show ( 1 ) ; x = two ( ) ; x ++ ; }
+{ print ; if ( $ > 1 ) next ; print "elem" , $ ; }
+END { print "end" ; print ; exit ; print "never" }`,
+
+	// the same statements ended by a newline, unbraced bodies, `;` in front of else
+	`BEGIN {
+  print "begin"
+  print
+  i = 0
+  while ( i < 3 ) «L {
+    i ++
+    if ( i == 1 ) { continue ; } else print
+    if ( i == 2 ) { print ; break ; }
+  } L»
+  for ( j = 0 ; j < 2 ; j ++ ) «L print ; L»
+  if ( i ) print ; else print "no" ;
+}
+{ print
+  next
+}
+END { print "end"
+  print
+  exit
+}`,
 }
 
 type c11Tok struct {
 	text          string
 	inFn, inLoop  bool // state at the boundary BEFORE this token
 	closerFollows bool
+	depth         int // bracket depth at the boundary BEFORE this token (0: between rules, where a program may end)
 }
 
 // c11Scan splits a seed into tokens ("\n" is a token) with the region state
 // at the boundary before each token; the last entry is the end-of-text boundary.
 func c11Scan(seed string) []c11Tok {
 	var toks []c11Tok
-	fn, loop := 0, 0
+	fn, loop, depth := 0, 0, 0
 	lines := strings.Split(seed, "\n")
 	for li, line := range lines {
 		for _, w := range strings.Fields(line) {
@@ -113,14 +144,20 @@ func c11Scan(seed string) []c11Tok {
 			case "L»":
 				loop--
 			default:
-				toks = append(toks, c11Tok{text: w, inFn: fn > 0, inLoop: loop > 0})
+				toks = append(toks, c11Tok{text: w, inFn: fn > 0, inLoop: loop > 0, depth: depth})
+				switch w {
+				case "{", "(", "[":
+					depth++
+				case "}", ")", "]":
+					depth--
+				}
 			}
 		}
 		if li < len(lines)-1 {
-			toks = append(toks, c11Tok{text: "\n", inFn: fn > 0, inLoop: loop > 0})
+			toks = append(toks, c11Tok{text: "\n", inFn: fn > 0, inLoop: loop > 0, depth: depth})
 		}
 	}
-	toks = append(toks, c11Tok{text: "", inFn: fn > 0, inLoop: loop > 0})
+	toks = append(toks, c11Tok{text: "", inFn: fn > 0, inLoop: loop > 0, depth: depth})
 	return toks
 }
 
@@ -146,6 +183,33 @@ func c11Splice(toks []c11Tok, at int, frag string, skip int) (string, int) {
 		}
 	}
 	return sb.String(), off
+}
+
+// c11SpliceGlued is c11Splice with the blank before (glue&1) and / or after (glue&2) the
+// fragment removed, so that it stands directly against its neighbours: `print;@ }`.
+func c11SpliceGlued(toks []c11Tok, at int, frag string, glue int) (string, int) {
+	text, off := c11Splice(toks, at, frag, -1)
+	if glue&2 != 0 && off+len(frag) < len(text) && text[off+len(frag)] == ' ' {
+		text = text[:off+len(frag)] + text[off+len(frag)+1:]
+	}
+	if glue&1 != 0 && off > 0 && text[off-1] == ' ' {
+		text = text[:off-1] + text[off:]
+		off--
+	}
+	return text, off
+}
+
+// bytes that can never start a token: the printable ones and every control byte that is
+// not white space (NUL included: it must not be taken for the end of the program)
+func c11IllegalBytes() []c11Frag {
+	fs := []c11Frag{{"illegal-char-question", "?", ""}, {"illegal-char-caret", "^", ""}, {"illegal-char-backslash", "\\", ""}}
+	for b := 0; b < 0x20; b++ {
+		if b == '\t' || b == '\n' || b == '\r' {
+			continue
+		}
+		fs = append(fs, c11Frag{fmt.Sprintf("illegal-char-0x%02x", b), string([]byte{byte(b)}), ""})
+	}
+	return append(fs, c11Frag{"illegal-char-0x7f", "\x7f", ""})
 }
 
 func c11LineCol(text string, off int) (int, int) {
@@ -212,7 +276,7 @@ func c11GenSplice(r *rand.Rand, tier string, emit func(Case)) {
 				if f.scope == "nofn" && toks[at].inFn || f.scope == "noloop" && toks[at].inLoop {
 					continue
 				}
-				if tier == "quick" && si >= 2 && si != 4 && !chance(r, 0.4) { // seed 4 has the loop headers
+				if tier == "quick" && si >= 2 && si != 4 && si < 6 && !chance(r, 0.4) { // seed 4 has the loop headers, 6 and 7 every statement end
 					continue
 				}
 				text, off := c11Splice(toks, at, f.text, -1)
@@ -223,6 +287,37 @@ func c11GenSplice(r *rand.Rand, tier string, emit func(Case)) {
 				emit(Case{Req: RunReq(text, nil, c11Input, false), Fields: c11Fields, NonTrivial: c11IsSyntax,
 					Meta:   metaProg(text, "seed", fmt.Sprint(si), "spliced", f.text, "at-token-boundary", fmt.Sprint(at), "row", f.name, "col", fmt.Sprintf("seed%d", si)),
 					Oracle: c11SyntaxOracle("the fragment `"+f.text+"` ("+f.name+") spliced at token boundary "+fmt.Sprint(at), wl, wc)})
+			}
+		}
+		// illegal bytes (control bytes incl. NUL, ? ^ \) -- wherever the program could end
+		// (bracket depth 0: in front of, between and after the rules) and at a sample of the
+		// other boundaries; and the illegal characters standing directly against their
+		// neighbours, in particular right after a `;` or a statement keyword
+		spliceIllegal := func(at int, f c11Frag, glue int) {
+			text, off := c11SpliceGlued(toks, at, f.text, glue)
+			wl, wc := c11LineCol(text, off)
+			emit(Case{Req: RunReq(text, nil, c11Input, false), Fields: c11Fields, NonTrivial: c11IsSyntax,
+				Meta:   metaProg(text, "seed", fmt.Sprint(si), "spliced", fmt.Sprintf("%q", f.text), "at-token-boundary", fmt.Sprint(at), "glue", fmt.Sprint(glue), "row", f.name, "col", fmt.Sprintf("seed%d", si)),
+				Oracle: c11SyntaxOracle(fmt.Sprintf("the byte %q (%s) spliced at token boundary %d", f.text, f.name, at), wl, wc)})
+		}
+		illegal := c11IllegalBytes()
+		for at := range toks {
+			prev := ""
+			if at > 0 {
+				prev = toks[at-1].text
+			}
+			afterSep := prev == ";" || strings.Contains(" print return next exit break continue else } ", " "+prev+" ")
+			for _, f := range illegal {
+				if tier == "thorough" || toks[at].depth == 0 && chance(r, 0.5) || afterSep && chance(r, 0.25) || chance(r, 0.03) {
+					spliceIllegal(at, f, r.Intn(4))
+				}
+			}
+			for _, f := range append([]c11Frag{c11Frags[0], c11Frags[1]}, illegal[:3]...) {
+				for glue := 1; glue < 4; glue++ {
+					if tier == "thorough" || afterSep && (f.text == "@" || chance(r, 0.3)) || chance(r, 0.06) {
+						spliceIllegal(at, f, glue)
+					}
+				}
 			}
 		}
 		// a missing operand by deletion: an operand that is followed by a closing
@@ -241,6 +336,50 @@ func c11GenSplice(r *rand.Rand, tier string, emit func(Case)) {
 			emit(Case{Req: RunReq(text, nil, c11Input, false), Fields: c11Fields, NonTrivial: c11IsSyntax,
 				Meta:   metaProg(text, "seed", fmt.Sprint(si), "deleted-operand", t, "at-token", fmt.Sprint(at), "row", "missing-operand-by-deletion", "col", fmt.Sprintf("seed%d", si)),
 				Oracle: c11SyntaxOracle("deleting the operand `"+t+"` between `"+prev+"` and `"+next+"`", 0, 0)})
+		}
+	}
+	// program files with control bytes, through the real binary (-f): NUL cannot be passed
+	// as an argument, a file can hold it
+	{
+		illegal := c11IllegalBytes()[3:]
+		n := tierN(tier, 72, 600)
+		for i := 0; i < n; i++ {
+			f := illegal[i%len(illegal)]
+			if i >= len(illegal) && i%3 != 0 || i == 1 {
+				f = illegal[0] // NUL
+			}
+			si := r.Intn(len(c11Seeds))
+			toks := c11Scan(c11Seeds[si])
+			var top []int
+			for at := range toks {
+				if toks[at].depth == 0 {
+					top = append(top, at)
+				}
+			}
+			at := pick(r, top)
+			if chance(r, 0.25) {
+				at = r.Intn(len(toks))
+			}
+			text, _ := c11SpliceGlued(toks, at, f.text, r.Intn(4))
+			if i < len(illegal) {
+				// every byte once as the very last byte of the file (and once more followed by a newline only)
+				text, _ = c11SpliceGlued(toks, len(toks)-1, f.text, 2+r.Intn(2))
+				if i%2 == 1 {
+					text += "\n"
+				}
+			} else if chance(r, 0.3) {
+				text += " }}} print (" // whatever follows is not looked at if the byte ends the program
+			}
+			files := []CliFile{{Name: "in.json", Data: c11Input[0].Data}, {Name: "prog.jqawk", Data: []byte(text)}}
+			emit(Case{Req: CliReq([]string{"-f", "prog.jqawk", "in.json"}, nil, false, files, ""), Fields: []string{"exit", "out", "err"},
+				NonTrivial: func(i Resp) bool { return i["exit"] == "1" },
+				Meta:       metaProg(text, "seed", fmt.Sprint(si), "spliced", fmt.Sprintf("%q", f.text), "at-token-boundary", fmt.Sprint(at), "row", f.name, "col", "binary -f"),
+				Oracle: func(i Resp) string {
+					if i["exit"] == "0" || i["exit"] == "" || i.Bytes("out") != nil || i["err"] != "1" {
+						return fmt.Sprintf("C11: a program file containing the byte %q outside strings must be a syntax error (non-zero exit, message on stderr, no output); got exit %s, stdout %q, stderr %q", f.text, i["exit"], i.Bytes("out"), i.Bytes("stderr"))
+					}
+					return ""
+				}})
 		}
 	}
 	// the same errors inside a -r selector: nothing of the file's value may be
@@ -278,7 +417,7 @@ const c11Prelude = "function f() { return 1 }\n" +
 	"function g(a, b, c) { return a }\n" +
 	"function side(m) { print m; return 1 }\n" +
 	"function rec(n) { return rec(n + 1) }\n" +
-	"BEGIN { cx = 5; sx = 5; ss = \"a\"; sa = [1, 2]; circ = [1]; circ[0] = circ }\n"
+	"BEGIN { cx = 5; sx = 5; ss = \"a\"; sa = [1, 2]; circ = [1]; circ[0] = circ; s3 = \"abc\"; se = \"\"; sb = true; so = {s: \"xy\", a: [\"pq\", 7]} }\n"
 
 type c11Kind struct {
 	name, expr string
@@ -364,6 +503,43 @@ var c11Kinds = []c11Kind{
 	{"split-no-arguments", "(\"a\".split())", true, false},
 	{"contains-container", "([[1]].contains(1))", true, false},
 	{"pluck-bool", "({a: 1}.pluck(true))", true, false},
+}
+
+// c11StoreKinds: stores (= op= ++ --) whose target cannot hold a value: an index of a string
+// inside AND outside the string (first, last, == length, far beyond, negative within and
+// beyond, fractional, non-numeric; the empty string; strings in variables, temporaries,
+// object members, array elements), a member / index of a number, of a boolean, and a
+// method value of an array, string or number.  Each is a runtime error, never a silent no-op.
+func c11StoreKinds() []c11Kind {
+	type tgt struct{ name, expr string }
+	var ts []tgt
+	for _, ix := range []string{"0", "1", "2", "3", "4", "50", "2000000", "-1", "-3", "-4", "-50", "1.5", "\"k\"", "(1 + 2)", "s3.length()"} {
+		ts = append(ts, tgt{"string-variable-index " + ix, "s3[" + ix + "]"})
+	}
+	for _, t := range []tgt{
+		{"empty-string-index 0", "se[0]"}, {"empty-string-index -1", "se[-1]"}, {"empty-string-index 1", "se[1]"}, {"empty-string-member", "se.k"},
+		{"string-temporary-index 0", "(t2 = \"a\")[0]"}, {"string-temporary-index 1", "(t2 = \"a\")[1]"}, {"string-temporary-index 7", "(t2 = \"a\")[7]"}, {"empty-temporary-index 0", "(t2 = \"\")[0]"},
+		{"string-in-object-index 1", "so.s[1]"}, {"string-in-object-index 2", "so.s[2]"}, {"string-in-object-index -1", "so.s[-1]"}, {"string-in-object-index 9", "so[\"s\"][9]"},
+		{"string-in-array-index 0", "so.a[0][0]"}, {"string-in-array-index 2", "so.a[0][2]"}, {"string-in-array-index -3", "so.a[-2][-3]"},
+		{"char-of-char", "s3[1][0]"}, {"char-of-char-beyond", "s3[1][1]"}, {"member-of-missing-char", "s3[5].a"}, {"member-of-char", "s3[0].a"},
+		{"number-member", "sx.y"}, {"number-index 0", "sx[0]"}, {"number-index 1", "sx[1]"}, {"number-in-array-index", "sa[0][0]"}, {"number-in-object-member", "so.a[1].k"}, {"number-temporary-member", "(t1 = 5).y"},
+		{"bool-index 0", "sb[0]"}, {"bool-index 1", "sb[1]"}, {"bool-index -1", "sb[-1]"}, {"bool-member", "sb.k"}, {"bool-temporary-index", "(t3 = true)[0]"}, {"bool-temporary-false-index", "(t3 = false)[2]"},
+		{"array-method push", "sa.push"}, {"array-method length", "sa.length"}, {"array-method pop", "sa.pop"}, {"array-method sort", "sa[\"sort\"]"},
+		{"string-method length", "s3.length"}, {"string-method upper", "s3.upper"}, {"string-method split", "s3[\"split\"]"}, {"number-method floor", "sx.floor"}, {"number-method round", "sx[\"round\"]"},
+	} {
+		ts = append(ts, t)
+	}
+	var ks []c11Kind
+	for _, t := range ts {
+		self := !strings.ContainsAny(t.expr[:2], "s") || strings.HasPrefix(t.expr, "(")
+		for _, f := range []struct{ name, form string }{
+			{"=", "(T = 1)"}, {"= string", "(T = \"z\")"}, {"= itself", "(T = T)"}, {"+=", "(T += 1)"}, {"-=", "(T -= 1)"}, {"*=", "(T *= 2)"}, {"/=", "(T /= 2)"},
+			{"postfix ++", "(T++)"}, {"postfix --", "(T--)"}, {"prefix ++", "(++T)"}, {"prefix --", "(--T)"},
+		} {
+			ks = append(ks, c11Kind{name: "store/" + t.name + " " + f.name, expr: strings.ReplaceAll(f.form, "T", t.expr), self: self})
+		}
+	}
+	return ks
 }
 
 type c11Pos struct {
@@ -598,6 +774,19 @@ func c11GenFaults(r *rand.Rand, tier string, emit func(Case)) {
 			emit(c11FaultCase(p, k, k.expr, ""))
 		}
 	}
+	// stores into what cannot hold a value: every kind in a plain statement and as an operand, and at
+	// a sample of the other positions (thorough: at every position)
+	for _, k := range c11StoreKinds() {
+		for _, p := range ps {
+			if p.sels != nil && !k.self {
+				continue
+			}
+			if tier != "thorough" && p.name != "statement/BEGIN" && p.name != "operand/assign-rhs" && !chance(r, 0.05) {
+				continue
+			}
+			emit(c11FaultCase(p, k, k.expr, ""))
+		}
+	}
 	// $index / $file before any input: only meaningful in BEGIN
 	for _, k := range []c11Kind{{"dollar-index-in-BEGIN", "($index)", true, false}, {"dollar-file-in-BEGIN", "($file)", true, false}} {
 		for _, p := range ps {
@@ -635,8 +824,12 @@ func c11GenFaults(r *rand.Rand, tier string, emit func(Case)) {
 
 	// random deeper nesting of the fault inside expressions
 	n := tierN(tier, 1500, 150000)
+	stores := c11StoreKinds()
 	for i := 0; i < n; i++ {
 		p, k := pick(r, ps), pick(r, c11Kinds)
+		if chance(r, 0.35) {
+			k = pick(r, stores)
+		}
 		if p.sels != nil && !k.self || k.slow && !chance(r, 0.1) {
 			continue
 		}
@@ -713,7 +906,7 @@ func init() {
 		Rule: "6 valid multi-rule programs that print in BEGIN, per element and in END; one of 30 fragments that is a syntax error in every context (illegal character, lone quote, each unbalanced bracket, `* *`, `== ==`, stray => and :, assignment/++/-- on literal, call, unary, sum, string, match, array; return outside function bodies, break/continue outside loop bodies - also in loop headers via match blocks) spliced at every token boundary, plus operands deleted before a closing token, plus the fragments inside -r selectors. Oracle: class syntax, output empty (selectors: exactly BEGIN's output), illegal character reported at its own line/col. Non-trivial = rejected.",
 		Gen:  c11GenSplice})
 	register(Family{Name: "fault-injection", Prop: "C11",
-		Rule: "76 kinds of runtime fault (+ $index/$file in BEGIN) (division, calls of non-functions, invalid regex, ~ with a non-string, container comparison, non-iterables, member/index stores on scalars, ++ on such, 10 printf faults, unknown $name, bad escapes, index before start, copying function/native/method values, bad index kinds, array .length/string-key/huge-index stores, call depth, match pattern faults, native argument faults, circular json) x 133 evaluated positions + 8 match-pattern-literal positions (statements in every rule kind / element / file / value, rule patterns, both operands of every operator, assignment sides, calls, literals, if/while/for clauses incl. initialiser and post, for-in iterable and bodies, match subject/bodies/pattern literals, print arguments, function bodies/returns/nesting, -r selectors) + random deeper expression nesting; each position has a fault-free control. Oracle: class runtime and output exactly the text printed before the fault. Matrix kind x position in the result file. Non-trivial = runtime error.",
+		Rule: "76 kinds of runtime fault (+ $index/$file in BEGIN) + 605 kinds of failing store (55 targets that cannot hold a value -- an index of a string inside and outside the string incl. == length, negative, fractional, non-numeric, the empty string, strings in variables / temporaries / object members / array elements; members and indices of numbers and booleans; method values of arrays, strings and numbers -- x 11 store forms = op= ++ -- prefix and postfix; quick: in a statement, as an operand and at a 5% sample of the other positions) (division, calls of non-functions, invalid regex, ~ with a non-string, container comparison, non-iterables, member/index stores on scalars, ++ on such, 10 printf faults, unknown $name, bad escapes, index before start, copying function/native/method values, bad index kinds, array .length/string-key/huge-index stores, call depth, match pattern faults, native argument faults, circular json) x 133 evaluated positions + 8 match-pattern-literal positions (statements in every rule kind / element / file / value, rule patterns, both operands of every operator, assignment sides, calls, literals, if/while/for clauses incl. initialiser and post, for-in iterable and bodies, match subject/bodies/pattern literals, print arguments, function bodies/returns/nesting, -r selectors) + random deeper expression nesting; each position has a fault-free control. Oracle: class runtime and output exactly the text printed before the fault. Matrix kind x position in the result file. Non-trivial = runtime error.",
 		Gen:  c11GenFaults})
 	register(Family{Name: "fault-unevaluated", Prop: "C11",
 		Rule: "the same fault expressions at 22 positions that are never evaluated (short-circuit, untaken branches/cases, bodies of loops that do not run, code after break/continue/return/next/exit, uncalled functions, rules without input): class ok and the output equals the harmless control's (group).",
